@@ -232,7 +232,9 @@ Definition b_next (b : bstate) : bres unit :=
   match (if (b_state b =? bssOnValue) || (b_state b =? bssOnFieldID) then b_skip_value b else (b, Ok tt)) with
   | (b, Ok _) =>
     if (match b_stack b with (_, e) :: _ => b_pos b =? e | [] => false end)
-    then (upd_cur b bcEOF (b_null b) (b_len b), Ok tt)
+    then (if (match b_stack b with (k, _) :: _ => (k =? bcStruct) && (b_state b =? bssBeforeValue) | [] => false end)
+          then (b, Err)                (* a field name must be followed by its value *)
+          else (upd_cur b bcEOF (b_null b) (b_len b), Ok tt))
     else if b_state b =? bssBeforeFieldID
     then (upd_state (upd_cur b bcFieldID (b_null b) (b_len b)) bssOnFieldID, Ok tt)
     else
